@@ -3,7 +3,7 @@
 PROPS = {
     'C07': {
         'translated': ['GetPathQueryFragment', 'stringMatch', 'matchTriggerRule', 'mustTriggerCheck'],
-        'theorems': ['trigger_spec', 'path_component', 'query_irrelevant', 'fragment_irrelevant',
+        'theorems': ['no_hidden_state', 'trigger_spec', 'path_component', 'query_irrelevant', 'fragment_irrelevant',
                      'query_fragment_irrelevant', 'decision_depends_on_path_only', 'splitter_total',
                      'code_trigger_spec', 'code_decision_depends_on_path_only', 'code_splitter'],
         'trusted': ['regexp.MatchString is an oracle of the model (its results on the strings in play are input columns)',
@@ -12,7 +12,7 @@ PROPS = {
     },
     'C08': {
         'translated': ['matches'],
-        'theorems': ['check_eq_judge', 'first_match_wins', 'no_criterion_matches', 'criterion_semantics',
+        'theorems': ['no_hidden_state', 'check_eq_judge', 'first_match_wins', 'no_criterion_matches', 'criterion_semantics',
                      'configured_name_case_irrelevant', 'all_must_allow', 'stops_at_first_denial',
                      'handler_error_no_verdict', 'default_deny', 'untriggered_allowed', 'code_matches_spec'],
         'trusted': ['filters are abstract functions Resp -> Option Resp in the theorems; the differential run uses mock filters',
@@ -20,7 +20,7 @@ PROPS = {
         'assumptions': ['header maps have unique keys (Go map)'],
     },
     'C12': {
-        'theorems': ['memory_refines_spec', 'redis_refines_spec', 'stores_agree', 'memory_setTok', 'memory_setAuth',
+        'theorems': ['no_hidden_state', 'memory_refines_spec', 'redis_refines_spec', 'stores_agree', 'memory_setTok', 'memory_setAuth',
                      'memory_getTok', 'memory_getAuth', 'memory_clearAuth', 'memory_remove', 'memory_sweep_invisible',
                      'read_sees_latest_write', 'read_sees_latest_login_state', 'ids_do_not_interfere',
                      'remove_erases_everything', 'clear_keeps_tokens', 'created_fixed_by_first_write',
@@ -32,7 +32,7 @@ PROPS = {
         'assumptions': ['the store clock and the Redis server clock agree', 'history-level refinement theorems are stated with timeouts off; with timeouts on see C10 and the per-operation memory theorems'],
     },
     'C10': {
-        'theorems': ['memory_never_late_tokens', 'memory_never_late_login_state', 'memory_not_dropped_inside',
+        'theorems': ['no_hidden_state', 'memory_never_late_tokens', 'memory_never_late_login_state', 'memory_not_dropped_inside',
                      'memory_activity_keeps_created', 'memory_zero_is_no_limit', 'memory_sweep_not_needed',
                      'redis_ttl_formula', 'redis_never_late', 'redis_not_dropped_inside', 'redis_write_keeps_created',
                      'redis_login_write_keeps_created', 'redis_read_keeps_created', 'redis_write_uses_stored_creation'],
@@ -41,72 +41,72 @@ PROPS = {
         'assumptions': ['store clock and Redis server clock agree', 'timeouts are non-negative (uint32 seconds in the configuration)'],
     },
     'C01': {
-        'theorems': ['ok_justified', 'fault_never_ok', 'run_ok_justified', 'run_matches_driver', 'no_cookie_never_ok', 'callback_never_ok', 'chain_ok_needs_all', 'redis_prefix_safe'],
+        'theorems': ['no_hidden_state', 'ok_justified', 'fault_never_ok', 'run_ok_justified', 'run_matches_driver', 'no_cookie_never_ok', 'callback_never_ok', 'chain_ok_needs_all', 'redis_prefix_safe'],
         'trusted': ['hand-written interaction-tree model of Process/redirectToIDP/retrieveTokens/refreshToken (AuthModel/Oidc/Handler.lean), tied to the code by the differential run (response + ordered action trace per request line)', 'oracles: jwt parsing and claims (jwx), JWS verification (checked against an independent stdlib RSA verification in the harness), SHA-256/base64url; url.Parse of the callback URI', 'store-level atomicity of one Redis method is assumed except in redis_prefix_safe'],
     },
     'C02': {
-        'theorems': ['bound_only_validated', 'validated_meaning', 'login_nonce_exact', 'merged_provenance', 'forwarded_eq_bound', 'same_header_drops_id', 'ok_headers', 'code_forwarded_headers'],
+        'theorems': ['no_hidden_state', 'bound_only_validated', 'validated_meaning', 'login_nonce_exact', 'merged_provenance', 'forwarded_eq_bound', 'same_header_drops_id', 'ok_headers', 'code_forwarded_headers'],
         'translated': ['encodeTokensToHeaders', 'encodeHeaderValue'],
         'trusted': ['hand-written interaction-tree model of Process/redirectToIDP/retrieveTokens/refreshToken (AuthModel/Oidc/Handler.lean), tied to the code by the differential run (response + ordered action trace per request line)', 'oracles: jwt parsing and claims (jwx), JWS verification (checked against an independent stdlib RSA verification in the harness), SHA-256/base64url; url.Parse of the callback URI', 'signature soundness of jwx/crypto is trusted; the key set is an oracle'],
     },
     'C05': {
-        'theorems': ['redirect_renews', 'writes_only_under_issued', 'cookie_name_host_prefix', 'cookie_name_is_token', 'set_cookie_shape', 'directives_match_source', 'name_parts_match_source', 'logout_expires_cookie',
+        'theorems': ['no_hidden_state', 'redirect_renews', 'writes_only_under_issued', 'cookie_name_host_prefix', 'cookie_name_is_token', 'set_cookie_shape', 'directives_match_source', 'name_parts_match_source', 'logout_expires_cookie',
                      'code_cookie_name_host_prefix', 'code_set_cookie_shape', 'code_session_id_from_cookie'],
         'translated': ['getCookieName', 'getCookieDirectives', 'generateSetCookieHeader', 'getSessionIDFromCookie', 'DecodeCookiesHeader', 'EncodeCookieHeader'],
         'trusted': ['hand-written interaction-tree model of Process/redirectToIDP/retrieveTokens/refreshToken (AuthModel/Oidc/Handler.lean), tied to the code by the differential run (response + ordered action trace per request line)', 'oracles: jwt parsing and claims (jwx), JWS verification (checked against an independent stdlib RSA verification in the harness), SHA-256/base64url; url.Parse of the callback URI', 'generator freshness (new id differs from the presented one) is a property of the entropy source (C06)'],
     },
     'C11': {
-        'theorems': ['refresh_request', 'merge_spec', 'rotated_refresh_token_replaces', 'omitted_refresh_token_kept', 'refresh_success_stores_and_forwards_merged', 'refresh_failure_removes_session', 'refresh_branch_outcomes', 'code_response_validators'],
+        'theorems': ['no_hidden_state', 'refresh_request', 'merge_spec', 'rotated_refresh_token_replaces', 'omitted_refresh_token_kept', 'refresh_success_stores_and_forwards_merged', 'refresh_failure_removes_session', 'refresh_branch_outcomes', 'code_response_validators'],
         'translated': ['isValidIDPNewTokensResponse', 'isValidIDPRefreshTokenResponse'],
         'trusted': ['hand-written interaction-tree model of Process/redirectToIDP/retrieveTokens/refreshToken (AuthModel/Oidc/Handler.lean), tied to the code by the differential run (response + ordered action trace per request line)', 'oracles: jwt parsing and claims (jwx), JWS verification (checked against an independent stdlib RSA verification in the harness), SHA-256/base64url; url.Parse of the callback URI', 'the ledger of issued refresh tokens lives in the harness monitor'],
     },
     'C13': {
-        'theorems': ['unescape_escape', 'escape_clean', 'authorization_location', 'parameter_roundtrip', 'requested_url_stored', 'requested_url_def', 'post_login_location', 'redirects_no_cache', 'no_cache_headers_match_source'],
+        'theorems': ['no_hidden_state', 'unescape_escape', 'escape_clean', 'authorization_location', 'parameter_roundtrip', 'requested_url_stored', 'requested_url_def', 'post_login_location', 'redirects_no_cache', 'no_cache_headers_match_source'],
         'trusted': ['hand-written interaction-tree model of Process/redirectToIDP/retrieveTokens/refreshToken (AuthModel/Oidc/Handler.lean), tied to the code by the differential run (response + ordered action trace per request line)', 'oracles: jwt parsing and claims (jwx), JWS verification (checked against an independent stdlib RSA verification in the harness), SHA-256/base64url; url.Parse of the callback URI', 'parse(encode) is proved per parameter (escape/unescape), not for ParseQuery as a whole'],
     },
     'C14': {
-        'theorems': ['answers_are_catalogued', 'location_independent_of_secret', 'location_uses_verifier_only_via_challenge', 'fixed_denials_constant', 'cookie_and_logout_independent_of_secret', 'ok_adds_only_tokens'],
+        'theorems': ['no_hidden_state', 'answers_are_catalogued', 'location_independent_of_secret', 'location_uses_verifier_only_via_challenge', 'fixed_denials_constant', 'cookie_and_logout_independent_of_secret', 'ok_adds_only_tokens'],
         'trusted': ['hand-written interaction-tree model of Process/redirectToIDP/retrieveTokens/refreshToken (AuthModel/Oidc/Handler.lean), tied to the code by the differential run (response + ordered action trace per request line)', 'oracles: jwt parsing and claims (jwx), JWS verification (checked against an independent stdlib RSA verification in the harness), SHA-256/base64url; url.Parse of the callback URI', 'response bodies of library errors returned by Check are outside the model (scanned by the monitor)'],
     },
     'C15': {
         'translated': ['GetPathQueryFragment', 'stringMatch', 'matchTriggerRule', 'mustTriggerCheck', 'matches'],
-        'theorems': ['verdict_wellformed', 'nonstring_nonce_is_invalid', 'splitter_in_bounds', 'no_unexpected_type_assertions', 'no_unexpected_index_or_slice', 'no_explicit_panics', 'code_trigger_path_never_panics'],
+        'theorems': ['no_hidden_state', 'verdict_wellformed', 'nonstring_nonce_is_invalid', 'splitter_in_bounds', 'no_unexpected_type_assertions', 'no_unexpected_index_or_slice', 'no_explicit_panics', 'code_trigger_path_never_panics'],
         'trusted': ['hand-written interaction-tree model of Process/redirectToIDP/retrieveTokens/refreshToken (AuthModel/Oidc/Handler.lean), tied to the code by the differential run (response + ordered action trace per request line)', 'oracles: jwt parsing and claims (jwx), JWS verification (checked against an independent stdlib RSA verification in the harness), SHA-256/base64url; url.Parse of the callback URI', 'library code (jwx, encoding/json, url.ParseQuery, go-redis) is sampled by the differential run, not proved'],
     },
     'C03': {
-        'theorems': ['login_completes', 'no_reauth_while_valid', 'no_expires_in_no_expiry', 'cookie_read_back'],
+        'theorems': ['no_hidden_state', 'login_completes', 'no_reauth_while_valid', 'no_expires_in_no_expiry', 'cookie_read_back'],
         'trusted': ['hand-written interaction-tree model of the handler tied to the code by the differential run', 'oracles: jwt parsing/claims (jwx), JWS verification, SHA-256; url.Parse of the callback URI', 'the three steps are composed through hypotheses that the store returns what was stored (C12) and that the browser presents the cookie it was given (cookie_read_back)'],
     },
     'C04': {
-        'theorems': ['exchange_requires_state', 'challenge_matches', 'state_stored_under_issued_id', 'clear_consumes', 'callback_without_state_no_exchange', 'query_robust', 'consumed_state_no_later_exchange'],
+        'theorems': ['no_hidden_state', 'exchange_requires_state', 'challenge_matches', 'state_stored_under_issued_id', 'clear_consumes', 'callback_without_state_no_exchange', 'query_robust', 'consumed_state_no_later_exchange'],
         'trusted': ['hand-written interaction-tree model of the handler tied to the code by the differential run', 'oracles: jwt parsing/claims (jwx), JWS verification, SHA-256; url.Parse of the callback URI', 'interleavings: per-check theorems hold for every thread under any schedule; consumed_state_no_later_exchange covers every interleaving of any number of checks over a store that answers like the abstract session map (both stores refine it, C12; atomicity of a single store call is assumed); inside the overlap window of concurrent callbacks the statement is silent; listed scenarios are also enumerated on real goroutines under the controlled scheduler'],
     },
     'C09': {
-        'theorems': ['logout_answer', 'logout_answer_shape', 'logout_only_after_removal', 'removal_erases', 'ok_requires_tokens_read', 'writes_need_prior_read', 'resurrection_logout_answered', 'resurrection_inflight_ok', 'logout_resurrection', 'finality_characterisation',
+        'theorems': ['no_hidden_state', 'logout_answer', 'logout_answer_shape', 'logout_only_after_removal', 'removal_erases', 'ok_requires_tokens_read', 'writes_need_prior_read', 'resurrection_logout_answered', 'resurrection_inflight_ok', 'logout_resurrection', 'finality_characterisation',
                      'redis_removal_reported_faithfully', 'redis_nothing_after_removal', 'logout_uri_configured_or_discovered', 'discovery_refuses_logout_without_uri', 'code_path_matchers'],
         'translated': ['matchesLogoutPath', 'matchesCallbackPath', 'GetPathQueryFragment'],
         'trusted': ['hand-written interaction-tree model of the handler tied to the code by the differential run', 'oracles: jwt parsing/claims (jwx), JWS verification, SHA-256; url.Parse of the callback URI', 'finality over ALL interleavings is proved up to one shape (finality_characterisation: tokens served after an acknowledged removal imply a thread that read the session before the removal and wrote tokens after it) over a store that answers like the abstract session map (both stores refine it, C12; atomicity of a single store call is assumed); that shape is the known finding, exhibited by a kernel-decided witness schedule; every interleaving of logout x one or two checks is also enumerated on real goroutines'],
     },
     'C06': {
-        'theorems': ['sid_independent_of_public', 'every_id_reachable', 'draw_uniform', 'charset_distinct', 'no_prng_import', 'generator_calls_exact', 'identifier_lengths', 'charset_matches_source', 'limit_formula'],
+        'theorems': ['no_hidden_state', 'sid_independent_of_public', 'every_id_reachable', 'draw_uniform', 'charset_distinct', 'no_prng_import', 'generator_calls_exact', 'identifier_lengths', 'charset_matches_source', 'limit_formula'],
         'level_text': 'PARTIAL. Lean 4 theorems about information flow in the generator model (the session id depends on a stream segment nothing public depends on; no modulo bias) plus obligations over regenerated source facts (no math/rand, no clock, crypto/rand only). The unpredictability of crypto/rand itself is trusted, not proved.',
         'trusted': ['crypto/rand is unpredictable (trusted)', 'oauth2.GenerateVerifier reads 32 bytes from crypto/rand (checked by the differential run)', 'freshness/pairwise distinctness of identifiers used by C04/C05 is a probabilistic assumption (birthday bound over 62^64 / 62^32)'],
     },
     'C19': {
-        'theorems': ['reconcile_updates_exactly', 'index_sound', 'reconcile_ignores', 'other_namespace_not_indexed', 'refuse_cross_namespace', 'rotation_stable', 'token_request_uses_current', 'secret_key_matches_source'],
+        'theorems': ['no_hidden_state', 'no_hidden_state_infra', 'reconcile_updates_exactly', 'index_sound', 'reconcile_ignores', 'other_namespace_not_indexed', 'refuse_cross_namespace', 'rotation_stable', 'token_request_uses_current', 'secret_key_matches_source'],
         'trusted': ['controller-runtime client and its fake; the watch machinery that turns Secret events into Reconcile calls', 'the write of ClientSecretConfig is unsynchronised with concurrent checks (see C16 known finding)', 'hook: harness/export/internal__k8s/export.go (build tag verif, added by overlay) sets the unexported namespace/k8sClient fields'],
     },
     'C17': {
-        'theorems': ['accepted_resolved', 'merged_callback_was_checked', 'url_check_meaning', 'merge_fieldwise', 'scope_defaulting', 'rejected_is_error', 'untyped_filter_rejected', 'scope_constant_matches_source'],
+        'theorems': ['no_hidden_state', 'accepted_resolved', 'merged_callback_was_checked', 'url_check_meaning', 'merge_fieldwise', 'scope_defaulting', 'rejected_is_error', 'untyped_filter_rejected', 'scope_constant_matches_source'],
         'trusted': ['protojson decoding (the model starts from the decoded document); net/url.Parse, redis.ParseURL and net.ParseIP are oracles', 'only the fields that take part in loading are modelled (TLS/CA fields, skip_verify, fetch intervals are carried by the real code, not by the model)', 'hook: harness/export/internal/export.go (build tag verif) constructs LocalConfigFile with a path'],
     },
     'C20': {
-        'theorems': ['trust_decision', 'skip_only_when_requested_and_no_ca', 'identical_settings_share', 'identical_means_same_key', 'superseded_watcher_stops', 'every_user_of_a_file_keeps_its_watcher', 'rotation_reaches_entry', 'rotation_leaves_others', 'unparsable_rotation_ignored', 'pool_and_watchers_locked'],
+        'theorems': ['no_hidden_state', 'trust_decision', 'skip_only_when_requested_and_no_ca', 'identical_settings_share', 'identical_means_same_key', 'superseded_watcher_stops', 'every_user_of_a_file_keeps_its_watcher', 'rotation_reaches_entry', 'rotation_leaves_others', 'unparsable_rotation_ignored', 'pool_and_watchers_locked'],
         'level_text': 'PARTIAL. Lean 4 theorems about the trust decision, the pool and the watcher state machine of a hand-written model, tied to the code by real TLS handshakes against servers chaining to the old/new/unconfigured CA; crypto/tls, x509 chain building and timer scheduling are trusted.',
         'trusted': ['crypto/tls and crypto/x509 (handshake, chain building, SystemCertPool)', 'the settings hash (fnv64a) is treated as injective on the settings in play', 'timing: a rotation is judged after 7 refresh intervals', 'the in-place update of RootCAs on a live tls.Config is a data race (C16 known finding)'],
     },
     'C18': {
-        'theorems': ['own_config_governs', 'ok_needs_tokens_in_own_store', 'cross_filter_characterisation', 'store_assignment', 'memory_timeouts_first_filter', 'shared_memory_store', 'second_filter_timeouts_ignored'],
+        'theorems': ['no_hidden_state', 'own_config_governs', 'ok_needs_tokens_in_own_store', 'cross_filter_characterisation', 'store_assignment', 'memory_timeouts_first_filter', 'shared_memory_store', 'second_filter_timeouts_ignored'],
         'level_text': 'Lean 4 theorems: a filter uses only its own configuration; a session is honoured only if the store the filter resolves to returns tokens for the presented id (so filters on different stores are isolated); factory model (store assignment, whose timeouts). The statement itself is violated on the unchanged tree for filters that share a store: recorded as known findings, characterised by the theorems so that any other leak is still reported.',
         'trusted': ['the system-level run uses the real clock and the real generator (no model comparison of requests; the factory assignment is compared with the model)'],
     },
